@@ -23,6 +23,7 @@ the rest in place; a raising generator ends the handler with `Except.error` *aft
 """
 import ast
 import inspect
+import sys
 
 from pytrans import Untranslatable
 from pytrans2 import (Translator, Fn, Ctx, ind, lean_type, NAT, INT, BOOL, BYTES, STR, VAL, NONE, CS, T_opt, T_list, T_tuple, T_dict,
@@ -681,6 +682,131 @@ def translate_command_step(tree, handlers, params_of):
     return "\n".join(lines) + "\n"
 
 
+def translate_server_cb():
+    """→ Lean source of namespace Mimic.Extracted.ServerCode: `MysqlServer._client_connected_cb` as a function of the outcomes of
+    the three things it calls (session factory + Connection constructor, `control.add`, `connection.start`), returning the
+    effects it performs in order and whether an exception leaves it.  Read off the AST by symbolic execution of exactly the
+    statement forms the callback consists of today; anything else is an extraction error."""
+    from mysql_mimic import server as Sv
+    from mysql_mimic.errors import ErrorCode
+    tree = ast.parse(inspect.getsource(Sv))
+    cls = next(n for n in tree.body if isinstance(n, ast.ClassDef) and n.name == "MysqlServer")
+    f = next(n for n in cls.body if isinstance(n, ast.AsyncFunctionDef) and n.name == "_client_connected_cb")
+    bad = lambda why: Untranslatable("_client_connected_cb: " + why)
+
+    def ev_of(st, raising):
+        """(events, may_raise_kind) of a simple statement; may_raise_kind names the outcome parameter that decides whether it raises"""
+        u = ast.unparse(st)
+        if isinstance(st, ast.Expr) and isinstance(st.value, ast.Call) and ast.unparse(st.value.func).startswith("logger."):
+            return [], None
+        if u == "stream = MysqlStream(reader, writer)":
+            return [], None
+        if isinstance(st, ast.If) and ast.unparse(st.test) == "inspect.iscoroutinefunction(self.session_factory)" \
+                and [ast.unparse(x) for x in st.body] == ["session = await self.session_factory()"] \
+                and [ast.unparse(x) for x in st.orelse] == ["session = self.session_factory()"]:
+            return ["SEv.factory"], "factory"
+        if isinstance(st, ast.Assign) and ast.unparse(st.targets[0]) == "connection" and isinstance(st.value, ast.Call) and ast.unparse(st.value.func) == "Connection":
+            return [], None
+        if u == "connection_id = await self.control.add(connection)":
+            return ["SEv.add"], "add"
+        if u == "connection.connection_id = connection_id":
+            return ["SEv.set_id"], None
+        if isinstance(st, ast.Expr) and isinstance(st.value, ast.Await) and isinstance(st.value.value, ast.Call) \
+                and ast.unparse(st.value.value.func) == "stream.write" and len(st.value.value.args) == 1:
+            arg = st.value.value.args[0]
+            code = "none"
+            if isinstance(arg, ast.Call):
+                for kw in arg.keywords:
+                    if kw.arg == "code" and ast.unparse(kw.value).startswith("ErrorCode."):
+                        code = "(some %d)" % int(getattr(ErrorCode, ast.unparse(kw.value).split(".")[-1]))
+                if ast.unparse(arg.func) not in ("packets.make_error", "connection.error"):
+                    raise bad("write of " + ast.unparse(arg)[:60])
+            else:
+                raise bad("write of " + ast.unparse(arg)[:60])
+            return ["SEv.write_err %s" % code], None
+        if u == "return await connection.start()":
+            return ["SEv.start"], "start"
+        if u == "writer.close()":
+            return ["SEv.writer_close"], None
+        if isinstance(st, ast.Expr) and isinstance(st.value, ast.Await) and isinstance(st.value.value, ast.Call) \
+                and ast.unparse(st.value.value.func) == "self.control.remove" and len(st.value.value.args) == 1:
+            a = ast.unparse(st.value.value.args[0])
+            return ["SEv.remove %s" % {"connection_id": "RemArg.added_id", "connection.connection_id": "RemArg.attribute"}.get(a, "RemArg.other")], None
+        if isinstance(st, ast.Return) and st.value is None:
+            return ["RETURN"], None
+        raise bad("statement " + u[:80])
+
+    # symbolic execution: `outcomes` fixes the three outcome parameters; returns (events, raised)
+    def run_block(stmts, outcomes):
+        evs = []
+        for st in stmts:
+            if isinstance(st, ast.Expr) and isinstance(st.value, ast.Constant):
+                continue
+            if isinstance(st, ast.Try):
+                body_evs, status = run_block(st.body, outcomes)     # status: None (fell through) | "return" | ("raise", kind, sub)
+                evs += body_evs
+                if isinstance(status, tuple):
+                    # find the handler
+                    _, kind, sub = status
+                    handled = None
+                    for h in st.handlers:
+                        hn = ast.unparse(h.type)
+                        if hn == "TooManyConnections" and sub == "too_many":
+                            handled = h
+                            break
+                        if hn == "Exception":
+                            handled = h
+                            break
+                    if handled is not None:
+                        h_evs, h_status = run_block(handled.body, outcomes)
+                        evs += h_evs
+                        status = h_status
+                if st.finalbody:
+                    f_evs, f_status = run_block(st.finalbody, outcomes)
+                    evs += f_evs
+                    if f_status is not None:
+                        status = f_status
+                if status is not None:
+                    return evs, status
+                continue
+            e, kind = ev_of(st, outcomes)
+            if e == ["RETURN"]:
+                return evs, "return"
+            evs += e
+            if kind is not None:
+                o = outcomes[kind]
+                if o in ("raises", "too_many"):
+                    return evs, ("raise", kind, o)
+                if kind == "start":
+                    return evs, "return"          # `return await connection.start()`
+        return evs, None
+
+    rows = []
+    for fo in ("ok", "raises"):
+        for ao in ("id", "too_many", "raises"):
+            for so in ("returns", "raises"):
+                evs, status = run_block(f.body, {"factory": fo, "add": ao, "start": so})
+                raised = isinstance(status, tuple)
+                rows.append((fo, ao, so, evs, raised))
+    out = ["-- GENERATED by harness/extract.py (harness/pytrans3.py) from /repo/mysql_mimic/server.py — do not edit",
+           "namespace Mimic.Extracted.ServerCode", "",
+           "/-- which id `control.remove` is given: the local returned by `control.add`, the connection's attribute, anything else -/",
+           "inductive RemArg | added_id | attribute | other\nderiving DecidableEq, Repr\n",
+           "/-- what the accept callback does to the outside, in order -/",
+           "inductive SEv\n  | factory\n  | add\n  | set_id\n  | write_err (code : Option Nat)\n  | start\n  | writer_close\n  | remove (arg : RemArg)\nderiving DecidableEq, Repr\n",
+           "inductive FactoryOut | ok | raises\nderiving DecidableEq, Repr\n",
+           "inductive AddOut | id | too_many | raises\nderiving DecidableEq, Repr\n",
+           "inductive StartOut | returns | raises\nderiving DecidableEq, Repr\n",
+           "/-- `MysqlServer._client_connected_cb`: its effects in order and whether an exception leaves it, for every outcome of the session\n"
+           "    factory / `Connection(...)`, of `control.add` and of `connection.start()` -/",
+           "def client_connected_cb : FactoryOut → AddOut → StartOut → List SEv × Bool"]
+    for fo, ao, so, evs, raised in rows:
+        out.append("  | .%s, .%s, .%s => ([%s], %s)" % (fo, ao, so, ", ".join(evs), "true" if raised else "false"))
+    out.append("")
+    out.append("end Mimic.Extracted.ServerCode")
+    return "\n".join(out) + "\n"
+
+
 def py_sig(module, fname, lean, types=None):
     """Fn of an already translated module-level function, parameters and defaults read from the Python source"""
     types = types or {}
@@ -821,4 +947,4 @@ def translate_handlers():
 
 
 if __name__ == "__main__":
-    print(translate_handlers())
+    print(translate_server_cb() if "server" in sys.argv else translate_handlers())
